@@ -679,3 +679,29 @@ Proof.
   cbv zeta. split; [vm_compute; reflexivity|]. split; [vm_compute; reflexivity|]. split; [vm_compute; reflexivity|].
   eexists. split; [vm_compute; reflexivity|]. repeat split; vm_compute; reflexivity.
 Qed.
+(* write(51, ..) over IPv4 (authentication header number, excluded from C10_parse_back): link, VLAN
+   tag and IP header are accepted as configured (C10_parse_back_upto_ip); the decoder then reads an
+   authentication header out of the 3 payload bytes and fails there *)
+Example C10_ex_upto_ip :
+  let c := wit_cfg4 (TrNone 51) in
+  cfg_wf c = true /\ chain_ok c = false /\
+  exists bs, build LE c wit_payload = BOk bs /\ len bs = 41 /\ B bs 27 = 51 /\ W bs 20 = 23 /\
+    link_view c 41 = mkVPacket (Some (VEthernet2 (0, 41))) [VVlan (14, 27)] None None /\
+    wire_ethernet bs = wire_ipv4_tail bs (link_view c 41) 18 20 41 /\
+    wire_ethernet bs = VErr (ELen (mkLenError 12 3 LsIpv4HeaderTotalLen LyIpAuthHeader 38)).
+Proof.
+  cbv zeta. split; [vm_compute; reflexivity|]. split; [vm_compute; reflexivity|].
+  eexists. split; [vm_compute; reflexivity|]. repeat split; vm_compute; reflexivity.
+Qed.
+(* hypotheses of C10_icmp4_timestamp_payload_rejected are satisfiable: TimestampReply + one byte *)
+Example C10_ex_timestamp_payload_slice :
+  Icmp4.icmp4_type_header_len (CtlMsg.Spec.V4TimestampReply ex_ts) = 20 /\
+  exists bs, build LE ex_cfg_ts [7] = BOk bs /\ len (drop 20 bs) = 21 /\
+    Icmp4.icmp4_from_slice (drop 20 bs) = Roundtrip.Common.Err Roundtrip.Common.ELen /\
+    (exists h, Icmp4.icmp4_read (drop 20 bs) = Roundtrip.Common.Ok (h, [7])
+               /\ Icmp4.icmp4_type h = CtlMsg.Spec.V4TimestampReply ex_ts).
+Proof.
+  split; [reflexivity|]. eexists. split; [vm_compute; reflexivity|].
+  split; [vm_compute; reflexivity|]. split; [vm_compute; reflexivity|].
+  eexists. split; vm_compute; reflexivity.
+Qed.
